@@ -8,7 +8,7 @@ checks = {
          "every history of hset/hdel over a 7-key universe (incl. forced bucket collisions) to depth 4 (thorough 5) is executed on the real SexpHash; after each step every observer is compared with an ordered-map model; states are deduplicated by the hash's own three redundant structures",
          "trusts the Go reference model (slice of pairs) and the script-level observers; bounded depth and key universe", "§3 C14"),
  "C07": ("exploration", "exhaustive enumeration of all ordered pairs of a boundary grid on the real interpreter against a math/big oracle",
-         "every ordered pair of a boundary grid over int64/uint64/char/float64 (quick 169 values, thorough 1030: +-2^k, 2^k+-1, float neighbours, NaN, Inf, +-0, subnormals) under all 6 comparison operators, hash lookup and + - * / mod is evaluated on the real interpreter and compared with an exact oracle",
+         "every ordered pair of a boundary grid over int64/uint64/char/float64 (quick 444 values, thorough 1030: +-2^k, 2^k+-1, float neighbours, NaN, Inf, +-0, subnormals) under all 6 comparison operators, hash lookup and + - * / mod is evaluated on the real interpreter and compared with an exact oracle",
          "trusts the math/big / Go fixed-width oracle; values outside the structured grid are not explored; pairs the property leaves unspecified are only checked for no-panic", "§3 C07"),
  "C01": ("exploration", "small-scope exhaustive enumeration of source texts (token strings, ill-typed calls, single-token mutations of every corpus form, nesting families, declarations followed by a new interpreter) through every script-facing entry point of the real library and the command-line tool; oracle = returns a value or an error",
          "every string of <=3 (thorough 4) tokens over a 60-token alphabet x 10 wrappers through EvalString, LoadString+Run, the REPL line path and the parser; every bound name, macro and special form x all argument vectors of length 0..2 (thorough 3) over 24 value/form kinds; every top-level form of the 111 corpus scripts under every prefix, single-token deletion, duplication, neighbour swap and replacement by 8 (thorough 18) tokens, evaluated after the forms before it; 31 nesting families to depth 1000 (thorough 20000); 9 declaration routes x every bound/reserved name followed by construction of the next interpreter; hand list + alphabet through zygo -c / stdin / script file. No Go panic may escape, no process may die, no call may return (nil, nil), and every call returns within 60 s unless the 100000-step VM budget ran out",
@@ -47,10 +47,10 @@ checks = {
          "every list/array template of width 1..3 over 20 leaves (literals, unquotes of 6 bindings, splices of 4 lists incl. empty and nested, compound and traced unquotes) and with width-1..2 nested containers, written with the reader sugar; 12 macros x all argument tuples over 5 forms x 7 call sites x {direct, inside another macro's expansion}: value, effects and stacks vs the hand expansion; macexpand prints the exact substitution and leaves the caller's depths and globals unchanged",
          "trusts R4 (substitution inside the reference evaluator); splicing a non-list and nested syntax-quotes are skipped", "§3 C15"),
  "C12": ("exploration", "exhaustive enumeration of a structured value space (boundary numbers, the whole Unicode range in thorough, adversarial strings) through print -> read/eval, and of literal spellings against strconv/math/big",
-         "ints, ~270 floats (thorough: every power of two and neighbours over the full exponent range), floats computed by the interpreter, bools, nil, every rune of ASCII/Latin-1 + representatives (thorough: all 1,112,064 scalars) as char and 1-char string, 2-char (3-char) adversarial strings, symbols, JSON-like hashes, each bare / in list / in array / nested: (read (str v)) and, for JSON-like values, (eval (read (str v))) equal v structurally; ~700 numeric literal spellings and all char/string literals and escapes denote their exact value",
+         "ints, ~1300 floats (every 7th power of two and neighbours; thorough: every power of two and neighbours over the full exponent range), floats computed by the interpreter, bools, nil, every rune of U+0000..U+20FF + every 257th scalar above + representatives (thorough: all 1,112,064 scalars) as char and 1-char string, 2-char (3-char) adversarial strings, symbols, JSON-like hashes, each bare / in list / in array / nested: (read (str v)) and, for JSON-like values, (eval (read (str v))) equal v structurally; ~700 numeric literal spellings and all char/string literals and escapes denote their exact value",
          "structural comparison with numbers by value; hashes judged in the eval direction; literal grammar is a structured grid, not all strings", "§3 C12"),
  "C11": ("exploration", "exhaustive enumeration of a structured value space through json/unjson and msgpack/unmsgpack, with encoding/json as independent judge of the JSON text",
-         "nil, bools, boundary ints, ~190 finite floats, every 1-char string over ASCII/Latin-1 + representatives (thorough: all Unicode scalars) and all 2-char adversarial strings, as scalars, in arrays, in hashes and named records (1 key x every scalar, 3 keys in all 6 orders, nested, awkward field names) and in string-keyed hashes; round trips equal the value incl. record type names and key order at every level; (json v) is accepted by encoding/json and denotes the same data",
+         "nil, bools, boundary ints, ~190 finite floats, every 1-char string over U+0000..U+20FF + every 257th scalar above + representatives (thorough: all Unicode scalars) and all 2-char adversarial strings, as scalars, in arrays, in hashes and named records (1 key x every scalar, 3 keys in all 6 orders, nested, awkward field names) and in string-keyed hashes; round trips equal the value incl. record type names and key order at every level; (json v) is accepted by encoding/json and denotes the same data",
          "NaN/Inf excluded; string-keyed hashes judged on the JSON text only; bounded nesting", "§3 C11"),
  "C17": ("model_checking", "explicit-state BFS over histories of writes to a declared struct instance through every write route, against a declaration model",
          "all histories of depth 2 (thorough 3) over ~590 operations: 8 field names x 13 value kinds x {hset, set with dot path, infix dot assignment, construction}, non-symbol keys, nested dot paths, writes through pointers, derefSet, msgmap, decoding hand-written JSON/msgpack texts, round trips, redeclaration; after every step the instance has only declared fields once each under symbol keys and every non-nil value has the declared kind under the definition in force at creation; failed writes leave the instance unchanged",
